@@ -1,6 +1,7 @@
 (** C02 — at most one Job per (JobConfig, schedule time).  Statements only; every
     proof is [exact <lemma>] and is followed by Print Assumptions. *)
-From Furiko Require Import Base.Str Cron.Keys Proofs.KeysP.
+From Furiko Require Import Base.Str Cron.Keys Cron.Recon Proofs.KeysP Proofs.ReconP.
+Open Scope list_scope.
 
 (** The work-item key round-trips for every key text (dots included) and every
     int64 schedule time. *)
@@ -20,6 +21,56 @@ Theorem c02_name_injective :
     gen_name n1 t1 = gen_name n2 t2 -> n1 = n2 /\ t1 = t2.
 Proof. exact gen_name_inj. Qed.
 Print Assumptions c02_name_injective.
+
+(** The reconciler under its retry loop, for every history of schedule requests (duplicates,
+    re-deliveries in any order, malformed keys), Job-cache lag and loss (restart), create
+    failures (server error, invalid, AlreadyExists), JobConfig changes and Job deletions:
+    in every reachable state at most one Job exists per JobConfig name and schedule time. *)
+Theorem c02_at_most_one :
+  forall ops j1 j2,
+    let w := rrun_world init_rworld ops in
+    In j1 (rw_api w) -> In j2 (rw_api w) ->
+    cj_owner_name j1 = cj_owner_name j2 -> cj_ann j1 = cj_ann j2 -> j1 = j2.
+Proof. exact at_most_one. Qed.
+Print Assumptions c02_at_most_one.
+
+(** identity of every Job in every reachable state *)
+Theorem c02_identity :
+  forall ops j, In j (rw_api (rrun_world init_rworld ops)) ->
+    exists t, cj_name j = gen_name (cj_owner_name j) t /\ cj_ann j = sched_annotation t /\
+              cj_label_uid j = cj_owner_uid j.
+Proof. exact identity. Qed.
+Print Assumptions c02_identity.
+
+(** a created Job belongs to the JobConfig cached under the requested name: owner reference
+    and UID label are that JobConfig's, the annotation is the requested schedule time -
+    whatever labels or annotations the JobConfig's template carries *)
+Theorem c02_created_identity :
+  forall w key w', process w key = (w', 2%Z) ->
+    exists name t jc, split_key key = Some (name, t) /\ find_jc name (rw_jcs w) = Some jc /\
+      rw_api w' = rw_api w ++ [mkCJ (gen_name name t) name (rc_uid jc) (rc_uid jc) (sched_annotation t) (rc_forbid jc)].
+Proof. exact created_identity. Qed.
+Print Assumptions c02_created_identity.
+
+(** re-requesting a schedule time whose Job exists never changes the API, whatever the state
+    of the Job cache and whatever faults are pending *)
+Theorem c02_idempotent :
+  forall w key name t w' out,
+    split_key key = Some (name, t) -> api_has (gen_name name t) (rw_api w) = true ->
+    process w key = (w', out) -> rw_api w' = rw_api w.
+Proof. exact idempotent. Qed.
+Print Assumptions c02_idempotent.
+
+Open Scope string_scope.
+Example c02_history_nonvacuous :
+  let jc := mkRJC "a.b" "uid-1" false 1 0 (Some "999") (Some "evil") in
+  let ops := [RSetJC jc; RRequest "a.b.1700000000"; RRequest "a.b.1700000000"; RFault RFServer; RWork; RFire;
+              RWork; RRequest "a.b.1700000000"; RWork; RRestart; RRequest "a.b.1700000000"; RWork;
+              RDeleteJob "a.b-1700000000"; RRequest "a.b.1700000000"; RWork; RAdvance; RAdvance; RRequest "a.b.1700000000"; RWork] in
+  map (fun o => snd o) (rrun init_rworld ops) =
+    [0; 0; 0; 0; 3; 0; 2; 0; 3; 0; 0; 1; 0; 0; 1; 0; 0; 0; 2]%Z /\
+  rw_api (rrun_world init_rworld ops) = [mkCJ "a.b-1700000000" "a.b" "uid-1" "uid-1" "1700000000" false].
+Proof. vm_compute. split; reflexivity. Qed.
 
 Example c02_key_roundtrip_nonvacuous :
   is_int64 1606987620 = true /\
